@@ -271,9 +271,8 @@ def run(pid, tier, replay):
     # known_findings.json may not have been regenerated yet)
     own = os.path.join(core.VERIF, "known_findings.d", pid + ".json")
     if os.path.exists(own):
-        have = {k["id"] for k in chk.known}
-        chk.known += [k for k in json.load(open(own)).get("findings", [])
-                      if k.get("property") == pid and k.get("status", "known") == "known" and k["id"] not in have]
+        chk.known = [k for k in json.load(open(own)).get("findings", [])
+                     if k.get("property") == pid and k.get("status", "known") == "known"]
     repo = featmeta.repo_path()
     host = featmeta.host_triple()
     meta = featmeta.extract(repo)
